@@ -7,7 +7,7 @@ MODULES = ['DsdVerif.Props.C02']
 GEN_FILES = []
 THEOREM_NAMES = ['ckeyLt_irrefl', 'ckeyLt_trans', 'ckeyLt_total', 'ckeyLt_names_first', 'canon_mem_min', 'identifiers_total',
                  'orbit_rotate', 'canon_rot_invariant', 'canon_eq_iff', 'identifiers_existing', 'keys_are_orbit_preserved', 'turns_correct']
-THEOREMS = ['Dsd.C02.' + t for t in THEOREM_NAMES]
+THEOREMS = ['Dsd.C02.' + t for t in THEOREM_NAMES] + ['Dsd.C02.complexRequestFull_eq', 'Dsd.C02.strandRequestFull_eq', 'Dsd.CplxFullL.identifiers_eq']
 ASSUMPTIONS = [
     'ComplexS.identifiers is hand-modelled (Model/Objects.lean: complexIdentifiers = the loop with early exit on a registered rotation, '
     'minimum by (names, structure) under code-point lexicographic order); Python str/tuple ordering is modelled',
@@ -22,7 +22,8 @@ MANIFEST = {
             'whatever else is registered), turns_correct (rotate^turns(canon) is the supplied description, also for rotationally '
             'symmetric complexes), identifiers_total; for complexes of any size, using the C07 rotation theorems. Tied to '
             'ComplexS.identifiers by correspondence over every structure up to a bounded size labelled over 1-3 names, every rotation, '
-            'every order of first presentation; minimality / equivalence / hash coherence also decided on the real code by brute force.',
+            'every order of first presentation; minimality / equivalence / hash coherence also decided on the real code by brute force. ' 
+            'Model/ComplexFull.lean + Model/SingletonFull.lean follow ComplexS.identifiers / __init__ / Singleton.__call__ statement by statement (the rotation loop with break / else, the cdict dictionary with last-value semantics, sorted(...)[0], wrap(-turns, tot), registration of rcplxs); identifiers_eq and complexRequestFull_eq prove that this is exactly the net-effect model complexIdentifiers / complexRequest for every registry and every request with a non-empty name (kernel-checked differences for the explicit name "" are kept as findings).',
     'note': 'Python tuple/str comparison is modelled as code-point lexicographic order; trusted base as in DESIGN.md section 3.',
     'technique': 'Lean 4 proofs: strict total key order, orbit invariance from rotate_period, registry invariant; correspondence check on histories',
 }
